@@ -2833,6 +2833,13 @@ _float_model("is_nan", lambda x: mk_bool(x != x))
 _float_model("is_finite", lambda x: mk_bool(_math.isfinite(x)))
 _float_model("min", lambda x, y: ("float", min(x, y)) if x == x and y == y else TOP, 2)
 _float_model("max", lambda x, y: ("float", max(x, y)) if x == x and y == y else TOP, 2)
+def _fclamp(x, lo, hi):
+    if lo != lo or hi != hi or lo > hi:
+        raise _Abort("diverge", "f64::clamp with min > max or a NaN bound")
+    return ("float", x if x != x else max(lo, min(hi, x)))
+
+
+_float_model("clamp", _fclamp, 3)
 _float_model("rem_euclid", lambda x, y: ("float", x - abs(y) * _math.floor(x / abs(y))) if y else TOP, 2)
 
 
